@@ -86,3 +86,19 @@ package dnsutil
 //@   requires msg != nil
 //@   modifies msg.Extra
 //@   ensures result == msg && forall i int :: {msg.Extra[i]} 0 <= i && i < len(msg.Extra) ==> !dyntype(msg.Extra[i], *dns.OPT)
+//@
+//@ # ---- C06 / C19: SetEdns0 — UDP size = clamp(advertised, 512, 1232) (1232 without OPT); EVERY client option is
+//@ # dropped from the OPT that goes upstream; at most one option is put back: the policy-clamped copy of the client's
+//@ # ECS, and only for a client the policy allows
+//@ func SetEdns0
+//@   requires req != nil
+//@   nosafety all
+//@   ensures msgOPT(req) != nil ==> result1 == ite(int(old(msgOPT(req).Hdr.Class)) < 512, 512, ite(int(old(msgOPT(req).Hdr.Class)) > 1232, 1232, int(old(msgOPT(req).Hdr.Class))))
+//@   ensures msgOPT(req) == nil ==> result1 == 1232
+//@   ensures result0 != nil
+//@   assert at return: msgOPT(req) != nil ==> result1 == ite(int(old(msgOPT(req).Hdr.Class)) < 512, 512, ite(int(old(msgOPT(req).Hdr.Class)) > 1232, 1232, int(old(msgOPT(req).Hdr.Class))))
+//@   assert at return: msgOPT(req) == nil ==> result1 == 1232
+//@   assert at return: msgOPT(req) != nil ==> result0 == msgOPT(req) && len(result0.Option) <= 1
+//@   assert at return: msgOPT(req) != nil && len(result0.Option) == 1 ==> calls("(*internal/ecs.Policy).Clamp") == 1 && calls("(*internal/ecs.Policy).Allows") == 1
+//@   assert at store dns.OPT.Option#1: len(value) == 0
+//@   assert at call (*internal/ecs.Policy).Clamp#1: clientSubnet != nil && arg1 == clientSubnet && len(opt.Option) == 0
